@@ -320,6 +320,20 @@ def history_sig(ops, default, touched=None):
     verdicts = set()
 
     def judge():
+        # a link whose target runs through a link that was moved upward
+        # leads wherever that one leads: the move is behind both
+        changed = True
+
+        while changed:
+            changed = False
+
+            for l in links:
+                if not l[1] and l[3] is not None and any(
+                        m is not l and m[1] and l[3][:len(m[0])] == m[0]
+                        for m in links):
+                    l[1] = True
+                    changed = True
+
         if touched is not None:
             on_path = [l for l in links if touched[:len(l[0])] == l[0]]
             # a link created through another one lands where that one
@@ -339,8 +353,10 @@ def history_sig(ops, default, touched=None):
             path = _norm(op[1])
             through = any(path[:len(l[0])] == l[0] and len(path) > len(l[0])
                           for l in links)
+            target = _norm(op[2]) if op[2].startswith('/') else \
+                _norm('/'.join(path[:-1] + [op[2]]))
             links.append([path, False, through and
-                          not op[2].startswith('/')])
+                          not op[2].startswith('/'), target])
         elif op[0] in ('rename', 'posix_rename'):
             src, dst = _norm(op[1]), _norm(op[2])
 
